@@ -118,6 +118,13 @@ try:
                             continue
                         if isinstance(want, type) and (issubclass(want, (betterproto.Message, betterproto.Enum))) and got is not want:
                             out["errors"].append([name, k, "field %s: the library resolves the reference to %r, the annotation to %r" % (f.name, got, want)])
+                        elif md.proto_type == "map" and isinstance(want, type) and issubclass(want, betterproto.Message):
+                            # ... and a received map value is an object of that class
+                            key = {"string": "k", "bool": True}.get(md.map_types[0], 1)
+                            back = v().parse(bytes(v(**{f.name: {key: want()}})))
+                            vals = list(getattr(back, f.name).values())
+                            if len(vals) != 1 or type(vals[0]) is not want:
+                                out["errors"].append([name, k, "field %s: a received map value is %r, the annotation says %r" % (f.name, [type(x) for x in vals], want)])
                 elif issubclass(v, betterproto.Enum):
                     desc["enums"][k] = [[m.name, int(m.value)] for m in v.__members__.values()] if False else [[n, int(m.value)] for n, m in v.__members__.items()]
                 elif issubclass(v, betterproto.ServiceStub):
